@@ -191,10 +191,18 @@ theorem udf_read_terminates (bs : Bytes) :
 theorem oldUdfRead_traps :
     readAll false [0x80, 0x80, 0x80, 0x80, 0x80, 0x80, 0x80, 0x80, 0x40] = [.trap] := by decide
 
-/-- No explicit `panic(` is left on the path that handles what the peer sends (extracted call sites). -/
-theorem udf_reader_path_has_no_explicit_panic :
-    ∀ f ∈ Gen.udfPanicSites, f ∉ ["readData", "readResponse", "handleResponse", "doResponse", "typeMapsToFields", "ReadMessage"] := by
-  decide
+/-- **Data points on their way to a UDF**: whatever the field types of the points (durations from `eval`,
+nil, times …), every point is written to the UDF process and the writer never panics; a field the protocol
+cannot carry costs that field only. -/
+theorem udf_write_total (ks : List FKind) :
+    (udfWrite true ks).2 = .clean ∧ (udfWrite true ks).1.length = ks.length := udfWrite_total ks
+
+/-- Counterexample (defect repaired by the fieldsToTypedMaps fix): one duration field killed the process. -/
+theorem oldUdfWrite_traps : (udfWrite false [.int, .dur, .int]).2 = .trap := by decide
+
+/-- No explicit `panic(` is left anywhere in udf/server.go and udf/agent/io.go (extracted call sites);
+the driver uses this fact to choose the repaired writer model. -/
+theorem udf_has_no_explicit_panic : Gen.udfPanicSites = [] := by decide
 
 /-! ### The JSON node factory -/
 
